@@ -45,7 +45,7 @@ func (c18) Thresholds(tier string) map[string]int64 {
 		"children-with-cold-caches":                16,
 		"goroutines":                               300,
 		"runners":                                  500,
-		"steps":                                    1500,
+		"steps":                                    5000,
 		"traces-compared-with-sequential-reference": 500,
 		"cold-cache-concurrent-first-parses":       100,
 		"G=2":                                      2,
@@ -100,7 +100,13 @@ func (p c18) Run(c *core.Ctx) {
 			cfg.Unicode = false
 			cfg.MaxStmts = 30
 			cfg.VisitLines = r.Bool()
+			cfg.WStop = 0
+			cfg.WJump = 10
 			prog := gen.Flow(r, cfg)
+			// every runner exercises, right at its start, each feature that could sit in a package-level
+			// variable: every marker kind (replacement markers in open and self-closing form), the random
+			// built-ins, visit counts, conversions, commands and functions
+			prog.Nodes[0].Body = append(c18Prelude(), prog.Nodes[0].Body...)
 			scripts := hast.Render(prog, hast.L0())
 			seed := []string{"a", "k3", "zz9", "0", "seed", "x1y2"}[r.Intn(6)]
 			jobs[g] = append(jobs[g], &job{item: c09Item{Idx: id, Scripts: scripts, Seed: seed, ChoiceSeed: r.U64()}})
@@ -243,5 +249,23 @@ func (c18) Parent(p *core.ParentCtx, merged *core.Result) {
 	countRaces(p, merged, "C18")
 	if s, ok := merged.Sets["interleaving-prefixes"]; ok {
 		merged.Features["distinct-interleaving-prefixes"] = int64(len(s))
+	}
+}
+
+func c18Prelude() []*hast.Stmt {
+	line := func(parts ...hast.Part) *hast.Stmt { return &hast.Stmt{K: hast.SLine, Parts: parts} }
+	call := func(f string, a ...*hast.Expr) hast.Part { return hast.Inl(hast.Call(f, a...)) }
+	return []*hast.Stmt{
+		line(hast.Lit("Mae: [b]bold[/b] [wave a=1 /] [a][c]y[/a]z[/c] [/]")),
+		line(hast.Lit("[nomarkup][raw] text[/nomarkup] and [select value=m m=\"he\" f=\"she\"]x[/select]")),
+		line(hast.Lit("[plural value=2 one=\"% cat\" other=\"% cats\"]x[/plural] [ordinal value=3 one=\"%st\" two=\"%nd\" few=\"%rd\" other=\"%th\"]x[/ordinal]")),
+		line(hast.Lit("[plural value=1 one=\"% cat\" other=\"% cats\" /] [ordinal value=22 one=\"%st\" two=\"%nd\" few=\"%rd\" other=\"%th\" /] [select value=f m=\"he\" f=\"she\" /]")),
+		line(hast.Lit("draws "), call("dice", hast.Num("6")), hast.Lit(" "), call("random_range", hast.Num("1"), hast.Num("100")), hast.Lit(" "), call("random")),
+		line(hast.Lit("visits "), call("visited_count", hast.Str("N1")), hast.Lit(" "), call("visited", hast.Str("N2"))),
+		line(hast.Lit("conv "), call("string", hast.Num("1.5")), call("number", hast.Str("12")), call("bool", hast.Str("true")), call("floor", hast.Num("2.5")), call("round_places", hast.Num("2.25"), hast.Num("1"))),
+		{K: hast.SCommand, Name: "act", Args: []hast.CmdArg{{Word: "x"}, {Word: "1"}, {Word: "true"}}},
+		{K: hast.SCommand, Name: "emote", Args: []hast.CmdArg{{X: hast.Call("dice", hast.Num("4"))}}},
+		{K: hast.SCall, X: hast.Call("cap", hast.Num("1"), hast.Call("pure", hast.Str("v")))},
+		line(hast.Lit("prelude done")),
 	}
 }
